@@ -539,7 +539,8 @@ def regPath (o : Oracles) (host : Str) (validate : Bool) : R Str :=
     if validate && notRegName (lower host) then .error .valueError else pure (lower host)
   else do
     let h ← idnaEncode o host
-    if validate && notRegName h then .error .valueError else pure h
+    if mem 58 h then encodeHostA o h validate
+    else if validate && notRegName h then .error .valueError else pure h
 
 /-- with validation on, the zone id of an IP literal is screened like a reg-name -/
 def zoneBad (host : Str) (validate : Bool) : Bool :=
@@ -1302,5 +1303,138 @@ theorem parseIPv4_chars {s : Str} {o4 : List Nat} (h : parseIPv4 s = some o4) :
     have := hd p hp
     rw [List.all_eq_true] at this
     exact this c hcp
+
+/-! ### the re-entry `encodeHostA` (fix 3fbf5b4) -/
+
+theorem regNameChars_no_colon : mem 58 Gen.regNameChars = false := by decide
+
+/-- ':' is not a reg-name character: a text that passes the `NOT_REG_NAME` screen holds no colon -/
+theorem notRegName_false_no_colon {a : Str} (h : notRegName a = false) : mem 58 a = false := by
+  rw [mem_eq]
+  simp only [decide_eq_false_iff_not]
+  intro hm
+  rcases notRegName_spec a h 58 hm with h' | h'
+  · omega
+  · rw [regNameChars_no_colon] at h'; cases h'
+
+/-- the reg-name branch of the re-entry: the IDNA step is not available a second time -/
+def regPathA (host : Str) (validate : Bool) : R Str :=
+  if isAscii host then
+    if validate && notRegName (lower host) then .error .valueError else pure (lower host)
+  else .error .valueError
+
+theorem encodeHostA_eqV (o : Oracles) (host : Str) (v : Bool) :
+    encodeHostA o host v = (looksIP o host >>= fun b =>
+      match (if b then ipResV host v else none) with
+      | some r => r
+      | none => regPathA host v) := by
+  rfl
+
+theorem regPath_ascii (o : Oracles) {host : Str} (v : Bool) (ha : isAscii host = true) :
+    regPath o host v = regPathA host v := by
+  simp [regPath, regPathA, ha]
+
+/-- on ASCII text the re-entry is `_encode_host` itself -/
+theorem encodeHostA_ascii (o : Oracles) {host : Str} (v : Bool) (ha : isAscii host = true) :
+    encodeHostA o host v = encodeHost o host v := by
+  rw [encodeHostA_eqV, encodeHost_eqV, regPath_ascii o v ha]
+
+/-- the reg-name branch for a non-ASCII host whose IDNA answer holds no colon: the pre-3fbf5b4 code path -/
+theorem regPath_idn_no_colon (o : Oracles) {host a : Str} (v : Bool) (hna : isAscii host = false)
+    (hi : idnaEncode o host = .ok a) (hc : mem 58 a = false) :
+    regPath o host v = (if v && notRegName a then .error .valueError else pure a) := by
+  simp [regPath, hna, hi, hc, bind, Except.bind]
+
+/-- the reg-name branch as a function of the IDNA answer -/
+theorem regPath_idn (o : Oracles) {host : Str} (v : Bool) (hna : isAscii host = false) :
+    regPath o host v = (idnaEncode o host >>= fun a =>
+      if mem 58 a then encodeHostA o a v
+      else if v && notRegName a then .error .valueError else pure a) := by
+  simp [regPath, hna]
+
+/-- an accepted re-entry came out of the IP branch or out of the (ASCII-only) reg-name branch -/
+theorem encodeHostA_casesV {o : Oracles} {host : Str} {v : Bool} {r : Str} (h : encodeHostA o host v = .ok r) :
+    (ipRes host = some r ∧ zoneBad host v = false) ∨
+      (ipRes host = none ∨ looksIP o host = .ok false) ∧ regPathA host v = .ok r := by
+  rw [encodeHostA_eqV] at h
+  cases hl : looksIP o host with
+  | error e => rw [hl] at h; cases h
+  | ok b =>
+    rw [hl] at h
+    simp only [bind, Except.bind] at h
+    cases b with
+    | false => right; exact ⟨Or.inr rfl, by simpa using h⟩
+    | true =>
+      simp only [↓reduceIte, ipResV_eq] at h
+      cases hr : ipRes host with
+      | none => rw [hr] at h; right; exact ⟨Or.inl rfl, h⟩
+      | some r' =>
+        rw [hr] at h
+        simp only [Option.map_some] at h
+        cases hz : zoneBad host v with
+        | true => rw [hz] at h; cases h
+        | false => rw [hz] at h; left; cases h; exact ⟨rfl, rfl⟩
+
+theorem regPathA_ok {host : Str} {v : Bool} {r : Str} (h : regPathA host v = .ok r) :
+    isAscii host = true ∧ r = lower host ∧ (v = true → notRegName r = false) := by
+  unfold regPathA at h
+  split at h
+  · rename_i ha
+    split at h
+    · cases h
+    · rename_i hn
+      cases h
+      refine ⟨ha, rfl, ?_⟩
+      intro hv; subst hv; simpa using hn
+  · cases h
+
+theorem mem_lower_58 (s : Str) : mem 58 (lower s) = mem 58 s := mem_lower_b 58 (by omega) s
+
+/-- a text with a colon that the re-entry accepts under validation is an IP literal with a screened zone -/
+theorem encodeHostA_colon_validated {o : Oracles} {a r : Str} (hc : mem 58 a = true)
+    (h : encodeHostA o a true = .ok r) : ipRes a = some r ∧ zoneBad a true = false := by
+  rcases encodeHostA_casesV h with h | ⟨_, h⟩
+  · exact h
+  · obtain ⟨_, rfl, hn⟩ := regPathA_ok h
+    have := notRegName_false_no_colon (hn rfl)
+    rw [mem_lower_58, hc] at this
+    cases this
+
+/-- the reg-name branch of `encodeHost` for a non-ASCII host, when it succeeds -/
+theorem regPath_idn_cases {o : Oracles} {host : Str} {v : Bool} {r : Str} (hna : isAscii host = false)
+    (h : regPath o host v = .ok r) :
+    ∃ a, idnaEncode o host = .ok a ∧
+      ((mem 58 a = false ∧ r = a ∧ (v = true → notRegName a = false)) ∨
+       (mem 58 a = true ∧ encodeHostA o a v = .ok r)) := by
+  rw [regPath_idn o v hna] at h
+  cases hi : idnaEncode o host with
+  | error e => rw [hi] at h; cases h
+  | ok a =>
+    rw [hi] at h
+    simp only [bind, Except.bind] at h
+    refine ⟨a, rfl, ?_⟩
+    cases hc : mem 58 a with
+    | true => right; rw [hc] at h; exact ⟨rfl, by simpa using h⟩
+    | false =>
+      left
+      rw [hc] at h
+      simp only [Bool.false_eq_true, ↓reduceIte] at h
+      split at h
+      · cases h
+      · rename_i hn
+        cases h
+        refine ⟨rfl, rfl, ?_⟩
+        intro hv; subst hv; simpa using hn
+
+/-- … with validation on: the IDNA answer itself (screened), or the IP literal the answer spells -/
+theorem regPath_idn_validated {o : Oracles} {host : Str} {r : Str} (hna : isAscii host = false)
+    (h : regPath o host true = .ok r) :
+    ∃ a, idnaEncode o host = .ok a ∧
+      ((mem 58 a = false ∧ r = a ∧ notRegName r = false) ∨
+       (mem 58 a = true ∧ ipRes a = some r ∧ zoneBad a true = false)) := by
+  obtain ⟨a, hi, h | h⟩ := regPath_idn_cases hna h
+  · obtain ⟨h1, rfl, h3⟩ := h
+    exact ⟨r, hi, Or.inl ⟨h1, rfl, h3 rfl⟩⟩
+  · exact ⟨a, hi, Or.inr ⟨h.1, encodeHostA_colon_validated h.1 h.2⟩⟩
 
 end Yarl.HostLemmas
